@@ -22,6 +22,10 @@ CONSTANTS
     PullMaxes,      \* max_messages offered to Pull
     Advances,       \* clock steps offered to Advance
     AckRefs,        \* delivery numbers that Ack / ModAck may name (includes stale / unknown)
+    WalkSizes,      \* page sizes offered to the list walks ({} = no listing operations)
+    Reads,          \* TRUE: Get* operations are part of the alphabet
+    OpKinds,        \* the operation names that are part of the alphabet
+    Negatives,      \* TRUE: -1 is added to ModSecs and to a non-empty WalkSizes (cfg files cannot spell -1)
     MaxOps,         \* bound on the length of a history
     MaxNow,         \* bound on the clock
     MaxMsgs,        \* bound on messages published in a history
@@ -132,6 +136,22 @@ ApiModAck(n, acks, secs) ==
        IN S' = [S EXCEPT ![smap[n]] = SubAfterMods(@, mods)]
     /\ UNCHANGED <<now, tmap, smap, T, torder, sorder, reg, pubs>>
 
+\* A blocking pull (no return_immediately): with an empty backlog it waits for the earliest
+\* outstanding delivery of this subscription to expire and takes that.
+ApiPullWait(n, max) ==
+    /\ n \in DOMAIN smap
+    /\ LET si == smap[n] IN
+       IF S[si].queue # <<>> THEN ApiPull(n, max)
+       ELSE /\ DOMAIN S[si].lease # {}
+            /\ LET t  == CHOOSE d \in {S[si].lease[a].dl : a \in DOMAIN S[si].lease} :
+                               \A a \in DOMAIN S[si].lease : d <= S[si].lease[a].dl
+                   S1 == ExpireAllUpTo(t)
+                   out == PullOut(S1[si], max, t) IN
+               /\ t <= MaxNow
+               /\ now' = t
+               /\ S' = [S1 EXCEPT ![si] = SubAfterPull(@, out, SubSeq(@.queue, Len(out) + 1, Len(@.queue)), t)]
+               /\ UNCHANGED <<tmap, smap, T, torder, sorder, reg, pubs>>
+
 \* The clock advances by d; every delivery due on the way expires, in deadline order.
 ApiAdvance(d) ==
     /\ now + d <= MaxNow
@@ -142,9 +162,12 @@ ApiAdvance(d) ==
 (***************************************************************************)
 (* The operation alphabet.                                                 *)
 (***************************************************************************)
+ModSecsAll == ModSecs \cup (IF Negatives THEN {-1} ELSE {})
+WalkSizesAll == WalkSizes \cup (IF Negatives /\ WalkSizes # {} THEN {-1} ELSE {})
+
 AckSeqs == {<<a>> : a \in AckRefs} \cup {<<a, b>> : a \in AckRefs, b \in AckRefs}
 
-Ops ==
+AllOps ==
     {[op |-> "CreateTopic", name |-> n] : n \in TopicNames}
     \cup {[op |-> "DeleteTopic", name |-> n] : n \in TopicNames}
     \cup {[op |-> "CreateSub", name |-> n, topic |-> tn, ack |-> a] : n \in SubNames, tn \in TopicNames, a \in AckSecs}
@@ -152,8 +175,16 @@ Ops ==
     \cup {[op |-> "Publish", topic |-> tn, n |-> k] : tn \in TopicNames, k \in PubSizes}
     \cup {[op |-> "Pull", sub |-> n, max |-> m] : n \in SubNames, m \in PullMaxes}
     \cup {[op |-> "Ack", sub |-> n, acks |-> a] : n \in SubNames, a \in AckSeqs}
-    \cup {[op |-> "ModAck", sub |-> n, acks |-> a, secs |-> s] : n \in SubNames, a \in AckSeqs, s \in ModSecs}
+    \cup {[op |-> "ModAck", sub |-> n, acks |-> a, secs |-> s] : n \in SubNames, a \in AckSeqs, s \in ModSecsAll}
     \cup {[op |-> "Advance", d |-> d] : d \in Advances}
+    \cup {[op |-> "PullWait", sub |-> n, max |-> m] : n \in SubNames, m \in PullMaxes}
+    \cup (IF Reads THEN {[op |-> "GetTopic", name |-> n] : n \in TopicNames}
+                         \cup {[op |-> "GetSub", name |-> n] : n \in SubNames} ELSE {})
+    \cup {[op |-> "Walk", kind |-> "topics", arg |-> pr, size |-> z] : pr \in {"projects/p1", "projects/p2"}, z \in WalkSizesAll}
+    \cup {[op |-> "Walk", kind |-> "subs", arg |-> pr, size |-> z] : pr \in {"projects/p1", "projects/p2"}, z \in WalkSizesAll}
+    \cup {[op |-> "Walk", kind |-> "topicsubs", arg |-> tn, size |-> z] : tn \in TopicNames, z \in WalkSizesAll}
+
+Ops == {o \in AllOps : o.op \in OpKinds}
 
 \* Operations that change nothing and teach nothing are left out of the graph:
 \* an ack / modify that names no outstanding delivery is kept only when it names
@@ -168,6 +199,8 @@ Step(o) ==
     \/ o.op = "Ack"         /\ ApiAck(o.sub, SeqSet(o.acks))
     \/ o.op = "ModAck"      /\ ApiModAck(o.sub, o.acks, o.secs)
     \/ o.op = "Advance"     /\ ApiAdvance(o.d)
+    \/ o.op = "PullWait"    /\ ApiPullWait(o.sub, o.max)
+    \/ o.op \in {"GetTopic", "GetSub", "Walk"} /\ UNCHANGED coreVars
 
 Init == CoreInit /\ hist = <<>>
 
